@@ -118,6 +118,17 @@ def named_templates():
     T['special-overlapping-output'] = [dict(frm=K('$a0'), to=K('$a1')), dict(frm=K('$a2'), to=K('$a3'), rep=sp(['$a3'], 0))]
     T['special-chord'] = [dict(frm=K('$a0'), to=K('$a0'), rep=DISABLED), dict(frm=K('$a1'), to=K('$a1'), rep=sp(['LEFTCTRL', '$a2'], 0))]
     T['special-two'] = [dict(frm=K('$a0'), to=K('$a1'), rep=sp(['$a2'], 0)), dict(frm=K('LEFTALT', '$a0'), to=K('$a3'), rep=sp([], 1)), dict(frm=K('$a4'), to=K('$a4'))]
+    T['precedence-reversed'] = [dict(frm=K('LEFTSHIFT', '$a0'), to=K('$a2')), dict(frm=K('$a0'), to=K('$a1')),
+                                dict(frm=K('$a3', '$a4'), to=K('$a2')), dict(frm=K('$a4'), to=K('LEFTCTRL', '$a1'))]
+    T['special-on-modifier-and-empty'] = [dict(frm=K('RIGHTALT'), to=K('RIGHTALT'), rep=sp(['$a0'], 0)), dict(frm=K('$a1'), to=[], rep=sp(['$a2'], 1)),
+                                          dict(frm=K('$a1', '$a3'), to=K('$a4'))]
+    T['norepeat-on-modifier-output'] = [dict(frm=K('$a0'), to=K('LEFTCTRL'), rep=DISABLED), dict(frm=K('$a1'), to=K('LEFTALT'), rep=sp(['$a2'], 0)),
+                                        dict(frm=K('$a3'), to=K('$a4'))]
+    T['absorbing-output-is-trigger+norepeat'] = [dict(frm=K('LEFTSHIFT', '$a0'), to=K('$a0'), absb=K('LEFTSHIFT')), dict(frm=K('$a1'), to=K('$a2'), rep=DISABLED),
+                                                 dict(frm=K('$a3'), to=K('$a4'), rep=sp(['$a4'], 0))]
+    T['absorbing-layer-with-output'] = [dict(frm=K('$a0'), to=K('LEFTCTRL')), dict(frm=K('$a0', '$a1'), to=K('$a2'), absb=K('$a0')), dict(frm=K('$a3'), to=K('$a2'))]
+    T['swap'] = [dict(frm=K('$a0'), to=K('$a1')), dict(frm=K('$a1'), to=K('$a0'))]
+    T['hyper'] = [dict(frm=K('$a0'), to=K('LEFTCTRL', 'LEFTALT')), dict(frm=K('$a0', '$a1'), to=K('LEFTCTRL', 'LEFTALT', '$a2')), dict(frm=K('$a3'), to=K('LEFTSHIFT', '$a4'))]
     T['empty-layout'] = []
     return T
 
@@ -266,7 +277,7 @@ def build(repo, native, tier, seed, log=None):
             dict(frm=K('$a0', '$a2'), to=K('LEFTSHIFT', '$a5')), dict(frm=K('$a0', '$a3'), to=K('$a4'))]
     add_spec('template/three-chords-shared-modifier/N4', deep, 4, max(D, 20), alphabet=K('$a0', '$a1', '$a2', '$a3'),
              note='symbolic template, four keys held, event keys restricted to the four trigger keys', no_foreign=quick)
-    nrand = 8 if quick else 40
+    nrand = 14 if quick else 60
     for i in range(nrand):
         nm = rng.choice([1, 2, 2]) if quick else rng.choice([1, 2, 2, 3, 3])
         maps = random_template(rng, nm)
